@@ -37,7 +37,8 @@ def signature(v) -> str:
 
 
 class Outcome:
-    __slots__ = ("status", "canon", "value", "lines", "ws", "wsk", "fault_site", "evict_site", "exc", "env_changed")
+    __slots__ = ("status", "canon", "value", "lines", "ws", "wsk", "fault_site", "evict_site", "exc", "env_changed",
+                 "poke_damage")
 
     def __init__(self):
         self.status = "ok"      # ok | skipped | budget | faulted
@@ -50,6 +51,7 @@ class Outcome:
         self.evict_site = None
         self.exc = None
         self.env_changed = None
+        self.poke_damage = None
 
 
 def env_state():
@@ -89,6 +91,24 @@ def exec_step(world: W.World, step: dict, ctx: seam.Ctx, fault=None, fp=False, e
             return out
         obj = world.get(slot)
         a = getattr(obj, "array", None)
+        if step["p"].get("bad") and isinstance(a, np.ndarray) and a.ndim:
+            # an assignment that cannot succeed (index out of range, value of the wrong shape): it must raise and
+            # leave its target exactly as it was -- numpy's own item assignment does
+            before = snapshot.snap(obj)
+            try:
+                if step["p"]["bad"] == "index":
+                    obj[a.shape[0] + 3] = 0.5
+                else:
+                    obj[...] = np.full(tuple(k + 1 for k in a.shape), 0.5)
+                raised = False
+            except Exception:  # noqa: BLE001
+                raised = True
+            after = snapshot.snap(obj)
+            if raised and after != before:
+                d = [x for x in snapshot.diff(before, after) if x[1] != "fill"] or [("", "attr-value")]
+                out.poke_damage = f"a failed Tensor.__setitem__ ({step['p']['bad']}) changed its target: {d[0][0]} {d[0][1]}"
+            world.drop(slot)
+            return out
         if isinstance(a, np.ndarray) and a.size and a.dtype.kind in "biufc" and a.flags.writeable:
             idx = tuple(int(x) for x in np.unravel_index(step["p"]["flat"] % a.size, a.shape))
             val = (not bool(a[idx])) if a.dtype.kind == "b" else a[idx] + 1
@@ -186,6 +206,9 @@ def store_outputs(world: W.World, step: dict, out: Outcome) -> None:
 
 
 def env_violation(out, step) -> Violation | None:
+    if getattr(out, "poke_damage", None):
+        return mk_violation("C12", "O1", step["i"], step["op"], out.poke_damage, objcls="target", path=".array",
+                            kind="failed-assignment", where="operand/pool")
     if getattr(out, "env_changed", None):
         return mk_violation("C12", "O1", step["i"], step["op"], "process-wide state changed by the call and not "
                             f"restored: {out.env_changed}", objcls="process", path="." + ",".join(out.env_changed),
@@ -395,8 +418,10 @@ class Gen:
             return None
         # results that exist only because some call promised a copy are the interesting ones to edit
         slot = self.rng.choice(promised) if promised and self.rng.random() < 0.6 else self.rng.choice(cands)
-        return {"i": i, "c": client, "op": "$poke", "args": [slot], "p": {"flat": self.rng.randrange(1 << 16)},
-                "out": [], "mode": "env"}
+        p_ = {"flat": self.rng.randrange(1 << 16)}
+        if self.rng.random() < 0.25:
+            p_["bad"] = self.rng.choice(["index", "shape"])
+        return {"i": i, "c": client, "op": "$poke", "args": [slot], "p": p_, "out": [], "mode": "env"}
 
     def after(self, step: dict, world: W.World) -> None:
         for s in step["out"]:
